@@ -5,6 +5,10 @@ V = os.path.dirname(os.path.dirname(os.path.abspath(__file__)))
 ids = [json.loads(l)["id"] for l in open(os.path.join(V, "properties.jsonl"))]
 
 CLAIMS = {
+ "C04": dict(engine="AgentDedup", technique="TLA+ specs AgentDedup (adversarial lister vs LRU dedup; NoDedup and Window attacks) and Relay (ID hand-off), TLC-enumerated list histories replayed on the real agent binary via a scripted fake proxy, TLC trace validation (AgentDedupTrace, RelayTrace)",
+   text="TLC checks AtMostOnce/ExactlyOnce for every list history and worker interleaving in the bounded model; TLC enumerates all 60 879 list histories (<=3 replies of <=3 IDs over 3 IDs) of the environment action, a seeded sample (160 quick / 3000 thorough, plus fixed repeat/permutation shapes and 999/1000-ID window-edge runs) is replayed against the real agent binary and each recorded run must be a behaviour of AgentDedup with every listed ID forwarded and served exactly once; concurrent foreign pollers against the real proxy must be explained by Relay (HandOffOnce).",
+   note="Trusted: TLC, fake proxy and counting backend of the harness, hooks Dedup/Spawn/ListOK. Timing of fetch/upload relative to later list replies is varied by seeded delays on the real code and enumerated exhaustively only in the model. Side condition <=1000 distinct IDs is part of the property; 1001-ID run is information only.",
+   design="6 C04"),
  "C01": dict(engine="Relay", technique="TLA+ spec Relay checked by TLC (exhaustive interleavings, liveness, IdCollision attack) + TLC trace validation (RelayTrace) of recorded executions of the real proxy/agent binaries, incl. -race builds",
    text="Bounded-exhaustive model checking of the proxy/agent relay design (all interleavings of 3 requests, 2-3 pollers, faults) plus conformance: every hook/observable event of bursts of up to 64 concurrent clients through the real binaries must be a behaviour of the specification, with the correlation invariants evaluated at every step.",
    note="Trusted: TLC, the token projection of the harness backend/clients, hook placement (receiver side of channel rendezvous). Bounds: 3 requests in the model, <=64 concurrent clients per burst in the runs. Race-detector reports count only with both stacks in repository code.",
